@@ -22,20 +22,35 @@ import common
 from common import Broken, Violation
 
 MANIFEST = {
-    "text": "Theorems for ALL JSON inputs, all decoder behaviours and EVERY behaviour of the property cleaners (black box "
-            "raising any Exception class): the wrapper maps every Exception to InvalidValueError (wrapper_total/only); an "
-            "exception outside {STIXError, ValueError, TypeError} can only originate at one of 14 enumerated unguarded "
-            "sites (nonfamily_only_at_unguarded_sites), hence only the family escapes once they are guarded (family_only, "
-            "also for parse_observable and direct construction); each site refuted by a concrete input on the live class "
-            "tables; failed construction leaves the store unchanged.  Class tables regenerated from the live classes "
-            "(AST walk of every __init__/_check_object_constraints override, unknown shape => obligation fails); "
-            "refinement correspondence of implementation outcome in model outcome set on (class, slot, JSON kind) "
-            "replacements at top level, embedded and in extensions, plus raw JSON parser inputs.",
-    "design_ref": "DESIGN.md 6/C17, A.8",
-    "note": "Trusted: Coq kernel + vm_compute; tr_c17classes (validated by the correspondence); the hand model's reading of "
-            "base.py/parsing.py/utils.py/markings/utils.py pre-clean code; assumption that cleaned values have the slot's "
-            "type when constraint hooks read them. Termination/RecursionError is partial: deep-nesting inputs are exercised "
-            "on the implementation only (json text depth is a modelled site). No axioms.",
+    "text": "20 theorems (all closed) about a set-valued exception-flow model of everything that runs outside "
+            "_check_property's generic wrapper, for ALL JSON inputs, all json.loads behaviours, both interoperability values, "
+            "every mode of the code under check (14 guardable sites, refuse-unrequested-custom, strict unregistered "
+            "extension) and EVERY well-behaved black-box property cleaner (raises any Exception class, known or "
+            "user-derived, whose __str__ returns): wrapper_total / wrapper_only / wrapper_str_failure_escapes; an "
+            "exception outside {STIXError, ValueError, TypeError} can only originate at an unguarded site "
+            "(nonfamily_only_at_unguarded_sites), hence family_only for parse, parse of a file, parse_observable, "
+            "dict_to_stix2 and direct construction; each of the 14 sites refuted by a concrete input on the live class "
+            "tables; the evaluated (set-valued and structural) models cover every black box; a failed construction leaves "
+            "the store unchanged (store as explicit state). Class tables (library and after user registrations) and the "
+            "library's exception message templates are REGENERATED from the code under check on every run (AST walk of "
+            "every __init__/_check_object_constraints override and of stix2/exceptions.py; an unknown shape fails an "
+            "obligation).",
+    "design_ref": "DESIGN.md 6/C17, A.8; design_notes/C17.md",
+    "note": "Tie = refinement correspondence: on every generated input the implementation's outcome (Ok:obj / Ok:dict / "
+            "escaping class) must be a member of the outcome set of the model evaluated with the STRUCTURAL cleaner "
+            "(embedded objects, lists of embedded objects, extensions, bundle members, observed-data members and plain "
+            "dictionaries followed with the same model; other property types {Ok, InvalidValueError}); coverage predicate: "
+            "every class x every top-level slot / embedded path (depth<=3) / extension entry / dictionary key x 23 JSON kinds "
+            "incl. format-hostile text, required slots dropped, unknown/reserved keys, via parse / text / file / "
+            "dict_to_stix2 / parse_observable / construction / MemoryStore.add, raw JSON values and texts, a worker with "
+            "user-registered classes (forked per case), deep nesting; quick samples 14 000 + 1 377, thorough ~193 000. "
+            "ORACLE-only (model-independent): family membership of whatever escapes, deep registry snapshot unchanged by a "
+            "failing call, store unchanged by a failing add, deep-nesting inputs. An implementation Ok where the structural "
+            "model has no successful outcome is reported as a violation of 'returns a fully validated object' "
+            "(correspondence-derived). ASSUMED: cleaned values have the slot's type when constraint hooks read them; "
+            "__str__ of builtin/third-party exceptions and stix2patterns.run_validator are total; user classes wrapped by "
+            "the custom builders have no __init__ of their own; interpreter stack depth is outside the model. Trusted: Coq "
+            "kernel + vm_compute, the translator and worker, python's json as decoder. No axioms.",
     "technique": "Coq proof over a set-valued exception-flow model + generated class tables + refinement correspondence",
 }
 
